@@ -8,11 +8,17 @@ want = set(base["stable_pass"])
 with tempfile.TemporaryDirectory() as td:
     xmlp = os.path.join(td, "j.xml")
     env = dict(os.environ); env.pop("BROMELIA_VERIF", None)
-    subprocess.run(["/venv/bin/python", "-m", "pytest", "-q", "-p", "no:cacheprovider", "--timeout=900",
-                    "--continue-on-collection-errors", "-n", os.environ.get("XDIST", "0"), "--junitxml=" + xmlp] if os.environ.get("XDIST") else
-                   ["/venv/bin/python", "-m", "pytest", "-q", "-p", "no:cacheprovider", "--timeout=900",
-                    "--continue-on-collection-errors", "--junitxml=" + xmlp],
-                   cwd=repo, env=env, stdout=subprocess.DEVNULL, stderr=subprocess.DEVNULL)
+    cmd = ["/venv/bin/python", "-m", "pytest", "-q", "-p", "no:cacheprovider", "--timeout=900",
+           "--continue-on-collection-errors", "--junitxml=" + xmlp]
+    # the suite binds fixed loopback ports (3868..): run it in a private network namespace when possible so that
+    # several runs (or stray processes) cannot disturb each other
+    if subprocess.run(["unshare", "-n", "true"], capture_output=True).returncode == 0:
+        import shlex
+        cmd = ["unshare", "-n", "sh", "-c", "ip link set lo up; exec " + " ".join(shlex.quote(c) for c in cmd)]
+    try:
+        subprocess.run(cmd, cwd=repo, env=env, stdout=subprocess.DEVNULL, stderr=subprocess.DEVNULL, timeout=1500)
+    except subprocess.TimeoutExpired:
+        print("baseline run timed out")
     passed = set()
     for tc in ET.parse(xmlp).getroot().iter("testcase"):
         if not any(c.tag in ("failure", "error", "skipped") for c in tc):
